@@ -27,4 +27,51 @@ theorem skel_storedSessionLoader_refreshSession_ok : skel_storedSessionLoader_re
   "return fmt.Errorf(\"error saving session: %v\", err)",
   "return nil"] : List String) := rfl
 
+theorem skel_Validate_ok : skel_Validate = ([
+  "strings.Split",
+  "if len(parts) != 3",
+  "return",
+  "if checkSignature(parts[2], seed, cookie.Name, parts[0], parts[1])",
+  "strconv.Atoi",
+  "if err != nil",
+  "return",
+  "if (expiration == time.Duration(0)) || (t.After(time.Now().Add(expiration*-1)) && t.Before(time.Now().Add(time.Minute*5)))",
+  "t.After",
+  "time.Now().Add",
+  "t.Before",
+  "time.Now().Add",
+  "base64.URLEncoding.DecodeString",
+  "if err == nil",
+  "return",
+  "return"] : List String) := rfl
+
+theorem skel_decodeCSRFCookie_ok : skel_decodeCSRFCookie = ([
+  "encryption.Validate",
+  "if !ok",
+  "return nil, errors.New(\"CSRF cookie failed validation\")",
+  "errors.New",
+  "decrypt",
+  "if err != nil",
+  "return nil, err",
+  "msgpack.Unmarshal",
+  "if err != nil",
+  "return nil, fmt.Errorf(\"error unmarshalling data to CSRF: %v\", err)",
+  "return csrf, nil"] : List String) := rfl
+
+theorem skel_decodeTicketFromRequest_ok : skel_decodeTicketFromRequest = ([
+  "req.Cookie",
+  "if err != nil",
+  "return nil, err",
+  "encryption.Validate",
+  "if !ok",
+  "return nil, fmt.Errorf(\"session ticket cookie failed validation: %v\", er",
+  "return decodeTicket(string(val), cookieOpts)"] : List String) := rfl
+
+theorem skel_ticket_saveSession_ok : skel_ticket_saveSession = ([
+  "if err != nil",
+  "return err",
+  "if err != nil",
+  "return fmt.Errorf(\"failed to encode the session state with the tick",
+  "return saver(t.id, ciphertext, t.options.Expire)"] : List String) := rfl
+
 end O2P.Expect.C09
